@@ -145,6 +145,7 @@ def gen_plan(seed, index, tier):
     ops.append(["int", int_seed])
     plan["ops"] = ops
     plan["stat"] = (index % 4 == 0)
+    plan["np_seeds"] = rng.random() < 0.5
     plan["ties"] = [rng.randint(0, 1) for _ in range(300)]
     return plan
 
@@ -361,7 +362,10 @@ def execute(plan, ctx):
             else:
                 _check_values(ctx, fam, out, nq, pred_by_t if regression else None, w if fam.startswith("eg") else None, p)
         elif kind == "int":
-            ok2, out, site = ctx.call(est.predict, Xq, random_state=op[1], **kw)
+            # the same integer, sometimes as a numpy integer (seeds often come out of numpy): numbers.Integral is legal
+            seed_obj = {0: op[1], 1: np.int64(op[1]), 2: np.uint32(op[1])}[(op[1] + len(int_outputs) + ctx.ops) % 3] \
+                if plan.get("np_seeds") else op[1]
+            ok2, out, site = ctx.call(est.predict, Xq, random_state=seed_obj, **kw)
             if not ok2:
                 ctx.fail("C10.predict_raised", f"predict(random_state=int) raised {type(out).__name__}: {out} at {site}")
                 continue
